@@ -809,8 +809,15 @@ func reader(r *vlib.Rng, k int, s string) io.Reader {
 		}
 		sort.Ints(cuts)
 		return &sliceReader{data: data, cuts: cuts}
-	default:
+	case 5:
 		return iotest.DataErrReader(bytes.NewReader(data))
+	default:
+		// k >= 6: every Read hands out at most k bytes (read sizes around the buffer sizes in the anchored code)
+		var cuts []int
+		for i := k; i < len(data); i += k {
+			cuts = append(cuts, i)
+		}
+		return &sliceReader{data: data, cuts: cuts}
 	}
 }
 
@@ -1262,22 +1269,51 @@ type env struct {
 	// trBase / trInsp: the translator with the debugging inspector off (default) / on (translators.anthropic.inspector.enabled)
 	trBase, trInsp *anthropic.Translator
 	thorough       bool
+	// overrides for the boundary cases (zero values = the defaults above): the read chunkings to use and the longest
+	// SSE line admitted (never above 1 MiB - 1: longer lines are outside the property)
+	ks        []int
+	lineLimit int
+	fragRng   *vlib.Rng
 }
 
-func (e *env) streamCase(class string, lines []Line, comp *completion, withBuffered bool) {
+// drawRender draws the rendering options of one stream case and renders it.  The number of draws does not depend on the
+// LENGTH of any string in `lines` (only on which fields are present / empty), so a caller that saves and restores *e.r
+// sees the very rendering streamCase will produce for lines that differ in the length of a fragment only (dryMaxLine).
+func (e *env) drawRender(lines []Line) (sseOpts, string, bool) {
 	r := e.r
 	rd := &renderer{r: r, escMode: r.Intn(3), shuffle: r.Bool()}
 	so := sseOpts{sep: vlib.Pick(r, []string{"\n\n", "\n\n", "\n", "\r\n\r\n", "\n\n\n"}), noFinalNL: r.Chance(1, 6), done: r.Chance(3, 4)}
 	sse := renderSSE(rd, lines, so)
 	// the translator's bufio.Scanner refuses lines over 1 MiB and aborts the stream (documented
 	// assumption of this property, see checks/C13.json): keep every line below that
-	if maxLine(sse) > 1<<20-4096 {
+	lim := 1<<20 - 4096
+	if e.lineLimit > 0 {
+		lim = e.lineLimit
+	}
+	if maxLine(sse) > lim {
 		rd.escMode = 1
 		sse = renderSSE(rd, lines, so)
-		if maxLine(sse) > 1<<20-4096 {
-			e.c.Count("skipped.line-over-1MiB")
-			return
+		if maxLine(sse) > lim {
+			return so, sse, false
 		}
+	}
+	return so, sse, true
+}
+
+// dryMaxLine: the length of the longest SSE line streamCase would render for `lines`, without consuming the PRNG.
+func (e *env) dryMaxLine(lines []Line) int {
+	saved := *e.r
+	defer func() { *e.r = saved }()
+	_, sse, _ := e.drawRender(lines)
+	return maxLine(sse)
+}
+
+func (e *env) streamCase(class string, lines []Line, comp *completion, withBuffered bool) {
+	r := e.r
+	so, sse, fits := e.drawRender(lines)
+	if !fits {
+		e.c.Count("skipped.line-over-1MiB")
+		return
 	}
 	ks := []int{0, 1 + r.Intn(5), 1 + r.Intn(5)}
 	if e.thorough || len(sse) < 300 {
@@ -1285,6 +1321,9 @@ func (e *env) streamCase(class string, lines []Line, comp *completion, withBuffe
 	}
 	if len(sse) > 200000 {
 		ks = []int{0, 3, 4}
+	}
+	if e.ks != nil {
+		ks = e.ks
 	}
 	var first streamResult
 	equal := true
@@ -1448,6 +1487,292 @@ func e2e(engine string, size int, stream bool, limit int64) map[string]any {
 		"complete": !stream || strings.Contains(string(r.Body), "event: message_stop")}
 }
 
+// ---------------------------------------------------------------- boundary-biased sizes (round 8)
+//
+// One fragment of a completion (the arguments string of ONE tool_calls delta, or the content of ONE text delta) is made
+// large: its length in bytes sits on / next to a power of two between 4 KiB and 512 KiB, a multiple of 64 KiB or 128 KiB,
+// a size well above the typical, or is chosen so that the SSE LINE that carries it has such a length (the line reader's
+// buffer starts at 64 KiB, doubles, and ends at 1 MiB).  Around every such offset INSIDE the fragment a character of
+// 1, 2, 3 or 4 bytes is placed at every alignment (beginning 0..w bytes before the offset).  The cases are ordinary
+// completions: they are judged by the clauses every other stream case is judged by (deltas reproduce the backend's text /
+// each call's id, name, arguments; grammar; stop/usage; streamed = buffered; model = implementation).
+
+var wideChars = [5][]string{nil, {"a", "e", "k", "z", "Q", "7", " "}, {"é", "ñ", "ß", "Ж", "߿", "\u0080"}, {"日", "語", "€", "ࠀ", "�", "￮"}, {"🎉", "😀", "𝄞", "\U00010000", "\U0010fffd", "\U000e0067"}}
+
+// atoms the filler draws from: `plain` is every character as the backend's TEXT carries it; `inArgs` is the same inside
+// an arguments string, where the backend has JSON-encoded the value once already (Go's canonical escapes, so that the
+// buffered translation re-encodes to the same string)
+var fillText = []string{"\n", "\"", "\\", "\t", "/", "<", "&", "é", "ß", "日", "€", "🎉", "𝄞", "\\u00e9", "\\n", " "}
+var fillArgs = []string{"\\n", "\\\"", "\\\\", "\\t", "/", "é", "ß", "日", "€", "🎉", "𝄞", "\\\\u00e9", "\\\\n"}
+
+type mark struct{ at, w, j int } // a character of w bytes beginning j bytes before offset `at` of the fragment
+
+// sized returns a string of EXACTLY n bytes: prefix, filler, suffix, with the marks' characters at their places (a mark
+// that does not fit between prefix and suffix, or overlaps an earlier one, is dropped).  mixed = 0: the filler is ASCII
+// letters only; mixed = k > 0: one atom of `atoms` every ~k letters.
+func sized(r *vlib.Rng, prefix, suffix string, n int, marks []mark, atoms []string, mixed int) string {
+	if n < len(prefix)+len(suffix) {
+		n = len(prefix) + len(suffix)
+	}
+	sort.Slice(marks, func(a, b int) bool { return marks[a].at-marks[a].j < marks[b].at-marks[b].j })
+	end := n - len(suffix)
+	var b strings.Builder
+	b.Grow(n)
+	b.WriteString(prefix)
+	mi := 0
+	const letters = "abcdefghijklmnopqrstuvwxyz ABCDEFGHIJKLMNOPQRSTUVWXYZ0123456789_-.,"
+	for b.Len() < end {
+		pos := b.Len()
+		for mi < len(marks) && marks[mi].at-marks[mi].j < pos {
+			mi++ // overlaps what is written already
+		}
+		next := end // where the filler must stop
+		if mi < len(marks) {
+			st := marks[mi].at - marks[mi].j
+			if st+marks[mi].w > end {
+				mi = len(marks)
+			} else if st == pos {
+				b.WriteString(vlib.Pick(r, wideChars[marks[mi].w]))
+				mi++
+				continue
+			} else {
+				next = st
+			}
+		}
+		if mixed > 0 && r.Chance(1, mixed) {
+			if a := vlib.Pick(r, atoms); pos+len(a) <= next {
+				b.WriteString(a)
+				continue
+			}
+		}
+		b.WriteByte(letters[r.Intn(len(letters))])
+	}
+	b.WriteString(suffix)
+	return b.String()
+}
+
+// limits of the anchored code and the sizes a size bug is likely to hinge on
+var sizeLimits = []int{4096, 8192, 16384, 32768, 65536, 131072, 262144, 524288}
+
+// marksFor: a character at some alignment around every power of two and every multiple of 64 KiB inside a fragment of n
+// bytes (each with probability 3/4); `forced` is placed first and wins overlaps by being sorted first at equal start.
+func marksFor(r *vlib.Rng, n int, forced []mark) []mark {
+	ms := append([]mark{}, forced...)
+	taken := map[int]bool{}
+	for _, m := range forced {
+		taken[m.at] = true
+	}
+	add := func(at int) {
+		if at <= 0 || at > n+4 || taken[at] || !r.Chance(3, 4) {
+			return
+		}
+		taken[at] = true
+		w := vlib.Pick(r, []int{1, 2, 3, 3, 4, 4, 4})
+		ms = append(ms, mark{at: at, w: w, j: r.Intn(w + 1)})
+	}
+	for _, l := range sizeLimits {
+		add(l)
+	}
+	for at := 65536; at <= n+4; at += 65536 {
+		add(at)
+	}
+	add(n) // a wide character at the very end of the fragment
+	return ms
+}
+
+// boundarySize draws a fragment length: on / next to a limit, a multiple of it, or well above the typical.
+func boundarySize(r *vlib.Rng, maxN int) int {
+	var n int
+	switch r.Intn(10) {
+	case 0, 1, 2, 3:
+		n = vlib.Pick(r, sizeLimits) + vlib.Pick(r, []int{-4, -3, -2, -1, 0, 1, 2, 3, 4, 5, 17})
+	case 4, 5:
+		n = vlib.Pick(r, []int{65536, 131072})*(2+r.Intn(5)) + vlib.Pick(r, []int{-3, -1, 0, 1, 2, 3, 4, 1000})
+	case 6:
+		n = vlib.Pick(r, []int{131072, 262144, 524288}) + 1 + r.Intn(70000) // just over: a second part much shorter than the first
+	case 7:
+		n = 65536 + r.Intn(maxN-65536) // 64 KiB .. ~1 MiB, any value
+	case 8:
+		n = vlib.Pick(r, []int{100000, 1000000, 10 * 65536, 640000, 999999, 3 * 131072 / 2}) // decimal sizes, 10x, non-integer ratios
+	default:
+		n = maxN - r.Intn(2000)
+	}
+	if n > maxN {
+		n = maxN - r.Intn(64)
+	}
+	return n
+}
+
+type bigFrag struct {
+	args   bool   // the arguments of a tool call (else a text delta)
+	n      int    // bytes in the large fragment
+	forced []mark // alignment sweep
+	mixed  int
+	layout int // args: 0 the whole arguments in the opening fragment, 1 in one fragment after an empty opening one, 2 lead / LARGE / tail, 3 lead / LARGE / LARGE / tail
+	// lineTarget > 0: pad the fragment (ASCII letters before its end) until the SSE line that carries it is exactly this long
+	lineTarget int
+}
+
+func (e *env) boundaryCase(class string, bf bigFrag) {
+	r := e.r
+	var comp completion
+	comp.model = vlib.Pick(r, []string{"gpt-4o", "llama3.1:8b", "qwen2.5-coder", ""})
+	build := func(pad int) {
+		rs := *e.fragRng // the same content on every call, `pad` more letters before the end
+		fr := &rs
+		comp.segs = nil
+		if bf.args {
+			atoms := fillArgs
+			var s Seg
+			id, name := "call_"+genIdent(fr), genIdent(fr)
+			switch bf.layout {
+			case 0, 1:
+				whole := sized(fr, `{"blob":"`, strings.Repeat("x", pad)+`"}`, bf.n+pad, marksFor(fr, bf.n, bf.forced), atoms, bf.mixed)
+				if bf.layout == 0 {
+					s = Seg{T: "call", ID: id, Name: name, First: whole, Pieces: []string{}}
+				} else {
+					s = Seg{T: "call", ID: id, Name: name, First: "", Pieces: []string{"", whole}}
+				}
+			default:
+				lead := `{"k":` + strconv.Itoa(fr.Intn(1000)) + `,"blob":"` + strings.Repeat("y", fr.Intn(20))
+				ps := []string{lead, sized(fr, "", strings.Repeat("x", pad), bf.n+pad, marksFor(fr, bf.n, bf.forced), atoms, bf.mixed)}
+				if bf.layout == 3 {
+					n2 := boundarySize(fr, 300000)
+					ps = append(ps, sized(fr, "", "", n2, marksFor(fr, n2, nil), atoms, bf.mixed))
+				}
+				ps = append(ps, `","n":null}`)
+				s = Seg{T: "call", ID: id, Name: name, First: "", Pieces: ps}
+				if fr.Bool() {
+					s.First, s.Pieces = ps[0], ps[1:]
+				}
+			}
+			if fr.Chance(1, 3) {
+				comp.segs = append(comp.segs, genText(fr))
+			}
+			comp.segs = append(comp.segs, s)
+			if fr.Chance(1, 3) {
+				comp.segs = append(comp.segs, genCall(fr, 1, 0))
+			}
+			comp.finish = sp("tool_calls")
+		} else {
+			ps := []string{}
+			if fr.Bool() {
+				ps = append(ps, genStr(fr, 1, 14))
+			}
+			ps = append(ps, sized(fr, "", strings.Repeat("x", pad), bf.n+pad, marksFor(fr, bf.n, bf.forced), fillText, bf.mixed))
+			if fr.Bool() {
+				ps = append(ps, genStr(fr, 1, 14))
+			}
+			comp.segs = append(comp.segs, Seg{T: "text", Pieces: ps})
+			comp.finish = sp(vlib.Pick(fr, []string{"stop", "length"}))
+			if fr.Chance(1, 3) {
+				comp.segs = append(comp.segs, genCall(fr, 0, 0))
+				comp.finish = sp("tool_calls")
+			}
+		}
+		comp.usage = &Usage{P: ip(int64(fr.Intn(5000))), C: ip(int64(fr.Intn(300000)))}
+	}
+	e.fragRng = r.Fork()
+	o := renderOpts{usageMode: vlib.Pick(r, []int{0, 0, 1, 2}), roleFirst: r.Bool(), contentNull: r.Chance(1, 3), finishOnLast: r.Chance(1, 6)}
+	lr := r.Fork()
+	mkLines := func() []Line { cp := *lr; return toLines(&cp, comp, o) }
+	build(0)
+	lines := mkLines()
+	// read sizes around the line reader's buffer sizes, besides the whole body at once and small random reads
+	ks := []int{0, vlib.Pick(r, []int{4095, 4096, 4097, 32768, 65535, 65536, 65537, 131072, 1<<20 - 1, 1 << 20}), vlib.Pick(r, []int{3, 4, 5, 1000 + r.Intn(9000)})}
+	withBuffered := bf.args || r.Chance(1, 3)
+	e.lineLimit = 1<<20 - 1
+	defer func() { e.lineLimit = 0; e.ks = nil }()
+	if bf.lineTarget > 0 {
+		if have := e.dryMaxLine(lines); have <= bf.lineTarget {
+			build(bf.lineTarget - have)
+			lines = mkLines()
+			if e.dryMaxLine(lines) == bf.lineTarget {
+				e.c.Count("boundary.line-length-hit")
+			} else {
+				e.c.Count("boundary.line-length-missed")
+			}
+		} else {
+			e.c.Count("boundary.line-length-missed")
+		}
+	}
+	e.ks = ks
+	e.streamCase(class, lines, &comp, withBuffered) // nothing may be drawn from r between dryMaxLine and here
+}
+
+func (e *env) boundaryCases() {
+	r := e.r
+	for w := 1; w <= 4; w++ {
+		for _, c := range wideChars[w] {
+			if len(c) != w || utf8.RuneCountInString(c) != 1 {
+				panic(fmt.Sprintf("wideChars[%d]: %q has %d bytes", w, c, len(c)))
+			}
+		}
+	}
+	// 1. alignment sweep: a character of every width at every alignment around the limits found in (or plausible for) the
+	// anchored code, in a fragment that goes well beyond the limit
+	type sw struct {
+		at     int
+		widths []int
+		args   bool
+	}
+	sweeps := []sw{{131072, []int{1, 2, 3, 4}, true}, {65536, []int{3, 4}, true}, {131072, []int{4}, false}, {65536, []int{4}, false}, {32768, []int{3, 4}, false}}
+	if e.thorough {
+		sweeps = nil
+		for _, at := range []int{4096, 8192, 16384, 32768, 65536, 131072, 262144, 524288} {
+			sweeps = append(sweeps, sw{at, []int{1, 2, 3, 4}, true}, sw{at, []int{2, 3, 4}, false})
+		}
+	}
+	for _, s := range sweeps {
+		for _, w := range s.widths {
+			for j := 0; j <= w; j++ {
+				n := s.at + vlib.Pick(r, []int{1, 2, 3, 4, 5, 64, 4096, s.at / 2, s.at, s.at + 7})
+				forced := []mark{{at: s.at, w: w, j: j}}
+				// the same alignment again at the next multiple, should the fragment reach it
+				forced = append(forced, mark{at: 2 * s.at, w: w, j: j})
+				e.boundaryCase("boundary.alignment-sweep", bigFrag{args: s.args, n: n, forced: forced, mixed: vlib.Pick(r, []int{0, 0, 40}), layout: r.Intn(4)})
+			}
+		}
+	}
+	// 2. sizes on, next to, at multiples of and far beyond the limits; mixed-width content
+	nr := 36
+	if e.thorough {
+		nr = 400
+	}
+	for i := 0; i < nr; i++ {
+		bf := bigFrag{args: r.Chance(3, 5), mixed: vlib.Pick(r, []int{0, 0, 12, 40, 3}), layout: r.Intn(4)}
+		maxN := 1000000
+		if bf.mixed > 0 && bf.mixed < 40 {
+			maxN = 330000 // raw UTF-8 stays below the line limit even where every quote / backslash doubles
+		}
+		bf.n = boundarySize(r, maxN)
+		if bf.args && bf.layout == 3 && bf.n > 600000 {
+			bf.layout = 2
+		}
+		e.boundaryCase("boundary.fragment-size", bf)
+	}
+	// 3. the SSE line itself on / next to the line reader's buffer sizes (64 KiB initial, doubling, 1 MiB maximum: a line
+	// of 1 MiB - 1 bytes is the longest the property covers)
+	targets := []int{65535, 65536, 65537, 131071, 131072, 131073, 262144, 524287, 524288, 524289, 1<<20 - 1, 1<<20 - 2, 1<<20 - 3}
+	if e.thorough {
+		for _, p := range []int{4096, 8192, 16384, 32768, 65536, 131072, 262144, 524288} {
+			for d := -3; d <= 3; d++ {
+				targets = append(targets, p+d)
+			}
+		}
+		for d := 1; d <= 12; d++ {
+			targets = append(targets, 1<<20-d)
+		}
+	}
+	for _, t := range targets {
+		n := t - 1500
+		if n < 1000 {
+			n = 1000
+		}
+		e.boundaryCase("boundary.line-length", bigFrag{args: r.Bool(), n: n, mixed: 0, layout: r.Intn(3), lineTarget: t})
+	}
+}
+
 func main() {
 	tier := vlib.Tier()
 	e := &env{c: vlib.OpenCases("cases.jsonl"), r: vlib.NewRng(vlib.Seed()).Fork(), thorough: tier == "thorough",
@@ -1570,6 +1895,9 @@ func main() {
 		}
 		e.c.Count("usage.mode" + strconv.Itoa(o.usageMode))
 	}
+
+	// ---- boundary-biased sizes: large single fragments, wide characters at every alignment around the limits
+	e.boundaryCases()
 
 	// ---- one translator, many clients at once, after some clients died mid-stream
 	e.sharedCase(8, map[bool]int{false: 30, true: 300}[e.thorough])
